@@ -1,8 +1,10 @@
 // C01: incremental builds produce exactly what a clean build produces (end to end, real plz).
 //
-// Part A (model + oracle): histories inside the fragment of Model/Engine.v; every history is one Coq case
-// (all trees, requests and what plz did at every step), and after every step the incremental outputs are
-// compared with a clean build of the same tree in a fresh directory (the oracle, model independent).
+// Part A (model + oracle): histories inside the fragment of Model/Engine.v (output_dirs targets included); every
+// history is one Coq case (all trees, requests and what plz did at every step: exit class, executed commands, output
+// trees, metadata files), and after every step the incremental outputs are compared with a clean build of the same
+// tree in a fresh directory (the oracle, model independent). After every clean build `plz hash --detailed` gives the
+// real rule hashes: one RuleKeys case per history ties the model's rule key to them (equal keys <-> equal hashes).
 // Part B (oracle only): the full generator of harness/e2e, including output_dirs targets.
 package main
 
@@ -19,8 +21,9 @@ import (
 func main() {
 	lib.Main("C01", func(c *lib.Ctx) {
 		c.Model("From PlzV Require Import Model.Engine.", "Engine.case", "Engine.check")
-		c.Rule("generated repositories (1-3 packages, 2-7 targets: genrules concat/const/copydir/listnames(/fail), filegroups, text_files; part B adds output_dirs) " +
+		c.Rule("generated repositories (1-3 packages, 2-7 targets: genrules concat/const/copydir/listnames(/fail), filegroups, text_files; every other history of part A and part B have output_dirs targets) " +
 			"with edit histories (content edits, renames and byte shifts inside output directories, srcs/outs/cmd changes, comments, adding/removing targets, " +
+			"renaming the declared out / adding, dropping, editing sources of output_dirs targets, " +
 			"breaking/repairing a command, deleting plz-out, going back to an earlier tree, requesting a subset); after every step the real `plz build` is compared " +
 			"with a clean build of the same tree in a fresh directory, and the whole history is replayed in the Coq model. " +
 			"distinct = distinct histories; non-trivial = a history with at least two steps that changed the tree")
